@@ -150,6 +150,14 @@ func (propC08) Gen(seed uint64, tier string) *Case {
 			rec.Ops = append(rec.Ops, Op{K: "render", W: wplan()})
 		}
 	}
+	if r.Chance(0.02) {
+		// failure burst: many failing renders, after which repeatability must still hold
+		rec.Frags = append(rec.Frags, &Node{K: "bad"})
+		for i := r.Range(9, 16); i > 0; i-- {
+			rec.Ops = append(rec.Ops, Op{K: r.Pick([]string{"render_frag", "render_frag_nofile"}), I: len(rec.Frags) - 1})
+		}
+		rec.Ops = append(rec.Ops, Op{K: "render"}, Op{K: "render"})
+	}
 	c := &Case{Property: "C08", Seed: seed, Tier: tier, Recipe: rec}
 	c.Cfg, _ = json.Marshal(cfg)
 	mode := "shuffle"
